@@ -64,7 +64,7 @@ def area_shape_ok(c):
 ANY_COLLECTION = Rec("CDSCollection", label="CollectionAnyShape", location=OneOf(FL, CL(2, 2)), _children=Const([]))
 
 
-@contract(f"{COLLECTION_FILE}::CDSCollection.__lt__", props=["C06", "C05"])
+@contract(f"{COLLECTION_FILE}::CDSCollection.__lt__", props=["C06", "C05", "C10"])
 class CollectionLessThan:
     """`a < b` for two child-less collections is the documented order: by start - an area over the origin sorts by its
     start before the origin, ahead of everything else - and from longest to shortest among equal starts. Both areas
